@@ -2415,6 +2415,12 @@ impl RaftNode {
             return;
         }
 
+        // A response from an earlier term says nothing about the follower's log now:
+        // the follower may have replaced those entries under another leader since.
+        if aer.term < persistent.current_term {
+            return;
+        }
+
         let should_advance_commit = {
             let mut leadership = self.leadership.write();
             if let Some(ref mut ls) = leadership.leader_volatile {
